@@ -841,3 +841,33 @@ pub fn timelock_seal_with_k<R: RC>(k_bytes: &[u8], msg: &[u8], alpha: &RS) -> RT
 pub fn gt_identity_bytes() -> Vec<u8> {
     Gt::IDENTITY.to_bytes().to_vec()
 }
+
+/// Signcryption seal of an arbitrary (possibly hostile) inner frame instead of
+/// LEB128(len)||msg||padding - used by C17 to put hostile length prefixes *under* the keystream.
+pub fn signcrypt_seal_frame<R: RC>(pk: R::Pk, frame: &[u8], dst: &[u8], r: &RS) -> RSignCrypt<R> {
+    let u = R::Pk::gen().mul(r);
+    let v = shake128_xor(&pk.mul(r).enc(), frame);
+    let mut t = u.enc();
+    t.extend_from_slice(&v);
+    let w = R::Sig::hash(&t, dst).mul(r);
+    RSignCrypt { u, v, w }
+}
+
+/// Time-lock seal of an arbitrary inner frame (the final r*P == U test will fail for frames
+/// that do not parse to `msg_for_r`, but the parser is exercised before that test).
+pub fn timelock_seal_frame<R: RC>(
+    pk: R::Pk,
+    frame: &[u8],
+    msg_for_r: &[u8],
+    id_for_hash: &[u8],
+    dst: &[u8],
+    alpha: &RS,
+) -> RTimeLock<R> {
+    let alpha_le = rs_le(alpha);
+    let r = timelock_r(&alpha_le, msg_for_r);
+    let k = R::e(R::Sig::hash(id_for_hash, dst), pk.mul(&r));
+    let u = R::Pk::gen().mul(&r);
+    let v = xor32(&alpha_le, &Sha256::digest(k.to_bytes()));
+    let w = shake128_xor(&alpha_le, frame);
+    RTimeLock { u, v, w }
+}
